@@ -241,6 +241,9 @@ func init() {
 			m.ghost["spin"] = tTrue
 			return nil
 		},
+		"vThorough": func(m *Machine, fr *frame, fn *ssa.Function, args []Value) Value {
+			return mkBool(m.eng.cfg.Thorough)
+		},
 		"vPoisoned": func(m *Machine, fr *frame, fn *ssa.Function, args []Value) Value {
 			_, ok := m.ghost["poison"]
 			return mkBool(ok)
@@ -1160,6 +1163,8 @@ func registerStrings() {
 		return mkStrTerms(bytesOf(buf)[off:])
 	}
 	// strings.EqualFold etc. run from SSA.
+	I["internal/stringslite.Clone"] = func(m *Machine, fr *frame, fn *ssa.Function, a []Value) Value { return a[0] }
+	I["strconv.cloneString"] = func(m *Machine, fr *frame, fn *ssa.Function, a []Value) Value { return a[0] }
 	I["strings.Clone"] = func(m *Machine, fr *frame, fn *ssa.Function, a []Value) Value { return a[0] }
 	I["unique.Make"] = nil
 	delete(I, "unique.Make")
@@ -1252,6 +1257,13 @@ func registerMisc() {
 	I["runtime.SetFinalizer"] = func(m *Machine, fr *frame, fn *ssa.Function, a []Value) Value { return nil }
 	I["runtime.GOMAXPROCS"] = func(m *Machine, fr *frame, fn *ssa.Function, a []Value) Value { return mkInt64(16) }
 	I["runtime.NumCPU"] = func(m *Machine, fr *frame, fn *ssa.Function, a []Value) Value { return mkInt64(16) }
+	// file system: outside the model, every open fails
+	I["os.Open"] = func(m *Machine, fr *frame, fn *ssa.Function, a []Value) Value {
+		errPkg := m.eng.prog.ImportedPackage("errors")
+		obj := new(Value)
+		*obj = structV{Str{s: "open: file system is outside the model"}}
+		return tuple{(*Value)(nil), Iface{T: types.NewPointer(errPkg.Type("errorString").Type()), V: obj}}
+	}
 	I["os.Exit"] = func(m *Machine, fr *frame, fn *ssa.Function, a []Value) Value {
 		panic(pathAbort{"exit", "os.Exit"})
 	}
@@ -1385,4 +1397,64 @@ func init() {
 	I["strconv.Itoa"] = func(m *Machine, fr *frame, fn *ssa.Function, a []Value) Value {
 		return mkStrTerms(m.decimalBytes(a[0].(*Term)))
 	}
+}
+
+// ---------- math/rand: results are fresh symbolic values in range ----------
+
+func init() {
+	I := intrinsics
+	randRecv := func(m *Machine, a []Value) {
+		// calls on a *rand.Rand mutate it: count as a write for the race analysis
+		if p, ok := a[0].(*Value); ok && p != nil {
+			m.noteAccessKey(p, true, false, "*rand.Rand state")
+		}
+	}
+	bounded := func(name string, bits uint, hasRecv bool) intrinsicFn {
+		return func(m *Machine, fr *frame, fn *ssa.Function, a []Value) Value {
+			args := a
+			if hasRecv {
+				randRecv(m, a)
+				args = a[1:]
+			}
+			n := args[0].(*Term)
+			if m.branch(tCmp("<=", n, mkInt64(0))) {
+				panic(targetPanic{Iface{T: types.Typ[types.String], V: Str{s: "invalid argument to " + name}}})
+			}
+			v := m.freshVar("rand", SInt, big.NewInt(0), new(big.Int).Sub(pow2(bits), big.NewInt(1)))
+			m.assertPC(tCmp("<", v, n))
+			if n.hi != nil {
+				v = boundTerm(v, 0, new(big.Int).Sub(n.hi, big.NewInt(1)).Int64())
+			}
+			return v
+		}
+	}
+	free := func(bits uint, hasRecv bool) intrinsicFn {
+		return func(m *Machine, fr *frame, fn *ssa.Function, a []Value) Value {
+			if hasRecv {
+				randRecv(m, a)
+			}
+			return m.freshVar("rand", SInt, big.NewInt(0), new(big.Int).Sub(pow2(bits), big.NewInt(1)))
+		}
+	}
+	for _, pkg := range []string{"math/rand", "math/rand/v2"} {
+		I["(*"+pkg+".Rand).Intn"] = bounded("Intn", 63, true)
+		I["(*"+pkg+".Rand).Int63n"] = bounded("Int63n", 63, true)
+		I["(*"+pkg+".Rand).Int31n"] = bounded("Int31n", 31, true)
+		I["(*"+pkg+".Rand).Int63"] = free(63, true)
+		I["(*"+pkg+".Rand).Int31"] = free(31, true)
+		I["(*"+pkg+".Rand).Int"] = free(63, true)
+		I["(*"+pkg+".Rand).Uint32"] = free(32, true)
+		I["(*"+pkg+".Rand).Uint64"] = free(64, true)
+		I[pkg+".Intn"] = bounded("Intn", 63, false)
+		I[pkg+".Int63n"] = bounded("Int63n", 63, false)
+		I[pkg+".Int31n"] = bounded("Int31n", 31, false)
+		I[pkg+".Int63"] = free(63, false)
+		I[pkg+".Int31"] = free(31, false)
+		I[pkg+".Int"] = free(63, false)
+		I[pkg+".Uint32"] = free(32, false)
+		I[pkg+".Uint64"] = free(64, false)
+	}
+	// seeding is irrelevant for the model
+	I["(*math/rand.rngSource).Seed"] = func(m *Machine, fr *frame, fn *ssa.Function, a []Value) Value { return nil }
+	I["math/rand.Seed"] = func(m *Machine, fr *frame, fn *ssa.Function, a []Value) Value { return nil }
 }
